@@ -5,9 +5,9 @@ CONSTANTS
   HashCodes = {0, 30, 31}
   OpNames = {"insert", "remove", "e_or_insert"}
   Es = 8
-  MaxId = 2
+  MaxId = 3
   MaxB = 32
   TK = 7
-  TRem = {5}
+  TRem = {4, 5}
 INVARIANTS Safe ChkOK Bounded
 CHECK_DEADLOCK FALSE
